@@ -407,6 +407,20 @@ def shapes(maxP, maxC, wpcs=(1, 2), two_substreams=True):
     return out
 
 
+def _empty_partition_shapes():
+    """partitions without any chunk (a dask bag after .filter(), a short last partition): legal,
+    and where they fall must not matter"""
+    out = []
+    for layout in ([0, 1], [1, 0], [0, 0, 1], [1, 0, 0], [0, 1, 0], [0, 2, 0], [0, 0], [0]):
+        P = len(layout)
+        for tree in all_trees(0, P):
+            for header, footer in ((True, True), (False, False), (True, False)):
+                out.append(dict(parts=[list(layout)], header=header, footer=footer, wpc=(1 if header else 2), trees=[tree]))
+    out.append(dict(parts=[[0], [1]], header=True, footer=True, wpc=1, trees=[0, 0]))
+    out.append(dict(parts=[[1], [0, 0]], header=False, footer=True, wpc=2, trees=[0, [0, 1]]))
+    return out
+
+
 def _scn_params(tier, rng):
     if tier == "quick":
         base = shapes(2, 2, (1, 2))
@@ -425,8 +439,9 @@ def _scn_params(tier, rng):
         # a writer whose part numbers do not start at 1
         out.append(dict(parts=[[1, 2]], header=True, footer=True, wpc=1, trees=[[0, 1]], min_part=5))
         out.append(dict(parts=[[2], [1]], header=False, footer=False, wpc=2, trees=[0, 0], min_part=5))
+        out += _empty_partition_shapes()[::2]
         return out
-    out = shapes(3, 2, (1, 2, 3))
+    out = shapes(3, 2, (1, 2, 3)) + _empty_partition_shapes()
     out += [dict(s, spill="0") for s in shapes(2, 2, (1,), two_substreams=False)]
     out += [dict(s, writer=False) for s in shapes(2, 1, (1,), two_substreams=True)]
     out += shapes(2, 3, (1, 2), two_substreams=False)[-40:]
